@@ -34,6 +34,12 @@ Definition sx (s : string) : bytes := map N_of_ascii (list_ascii_of_string s).
 (* long byte strings in case files come in pieces: one string literal of 100 kB is too deep a term *)
 Definition hxs (l : list string) : bytes := concat (map hx l).
 
+(* case-file literals: an entry of the case's string table; a JSON document written with
+   apostrophes for its double quotes *)
+Definition sv (t : list bytes) (k : N) : bytes := nth (N.to_nat k) t [].
+Definition jx (s : string) : bytes := map (fun c => if c =? 39 then 34 else c) (sx s).
+Definition jxs (l : list string) : bytes := concat (map jx l).
+
 (* ---- error classes (errors.Is against the package's sentinels) ------------------ *)
 Inductive err := EManifest | EVersion | EObject | ECorrupt | ENotFound | EExists | EIncomplete | EOther.
 Inductive res (A : Type) := Ok (a : A) | Err (e : err).
